@@ -28,6 +28,11 @@ for _pid, _t in [("C01", "edit script accounting (every child exactly once, list
                   ("C05", "2-safety by self-composition over call histories: the same symbolic documents are refined by the TreeNode.diff loop and by "
                           "every bounded prefix of public edit operations (on the top-level or a nested edit) followed by that loop, quiet on/off: no "
                           "exception, equal final cost, equal script"),
+                  ("C06", "the real JSONFormatter + colour Printer render every script reachable in the bound (leaf values symbolic during the diff, "
+                          "pinned to the path's model for json.dumps); deleting what is marked inserted (under-plus / green) parses to document 1, "
+                          "deleting what is marked removed (strike / red) parses to document 2, and marks exist iff the documents differ"),
+                  ("C13", "on every path of the diff (leaf values symbolic) the three output branches of main() are executed with all 8 formatters x "
+                          "3 modes, printers and condensed rotating: no exception escapes; XML and pydiff inputs as concrete jobs"),
                   ("C07", "no input mutation (structural snapshots before/after diff, edits, get_all_edits) and determinism as 2-safety: the same "
                           "symbolic documents diffed twice in one run while every set() in graphtage.graphtage iterates in an engine-chosen order "
                           "(models the hash seed): equal cost and equal ordered script"),
